@@ -458,13 +458,15 @@ def coq_meta(m):
     return '(mkMeta %s %s %s %s)' % (coq_trip(m[1]), coq_trip(m[2]), coq_trip(m[3]), coq_trip(m[4]))
 
 
-def coq_ptree(tr, idx, top=True):
-    """ptree term for PropagatePositions call idx (children produced by recorded calls are nested)"""
+def coq_ptree(tr, idx, top=True, obs_tr=None):
+    """ptree term for PropagatePositions call idx (children produced by recorded calls are nested).
+    obs_tr: take the observed results from another tracer's call of the same index (C15: structure and
+    tokens of the substring run, observations of the window run)"""
     call = tr.pp_calls[idx]
     kids = []
     for kind, v in call['kids']:
         if kind == 'node':
-            kids.append(coq_ptree(tr, v, False))
+            kids.append(coq_ptree(tr, v, False, obs_tr))
         elif kind == 'tok':
             kids.append('PTok %s' % coq_span_tok(v))
         elif kind == 'tree':
@@ -472,7 +474,7 @@ def coq_ptree(tr, idx, top=True):
         else:
             kids.append('PNone')
     sel = 'None' if call['sel'] is None else '(Some %s)' % N(call['sel'])
-    ob = call['obs']
+    ob = (obs_tr or tr).pp_calls[idx]['obs']
     if ob[0] == 'tree':
         obs = '(OTree %s)' % coq_meta(ob[1])
     elif ob[0] == 'tok':
